@@ -38,6 +38,7 @@ def configs(tier, seed):
         for (r, o) in (C.modes() if tier == 'thorough' else C.pick(C.modes(), 4, rng)):
             for pre in (range(8) if tier == 'thorough' else (0, 7, rng.randrange(1, 7))):
                 out.append(_cfg('write', s, n, f, r, o, 'pyfloat', pre=pre, entry=rng.choice(('call', 'setitem', 'set_val'))))
+            out.append(_cfg('write', s, n, f, r, o, rng.choice(('pyfloat', 'pyint')), pre=rng.randrange(1, 8), entry=rng.choice(('ctor_like', 'ctor_template'))))
             out.append(_cfg('write', s, n, f, r, o, 'arr2', pre=0))
             out.append(_cfg('write', s, n, f, r, o, 'arr3int', pre=rng.randrange(8)))
             out.append(_cfg('reset', s, n, f, r, o, 'pyfloat', pre=rng.randrange(8)))
@@ -195,6 +196,11 @@ def run(F, cfg, inp):
     keys_before = sorted(x.status)
     pre = cfg['pre']
     x.status['overflow'], x.status['underflow'], x.status['inaccuracy'] = bool(pre & 1), bool(pre & 2), bool(pre & 4)
+    if ent in ('ctor_like', 'ctor_template'):
+        # a new object built next to a template that raised flags in its own past: the new object reports its own write only
+        t = x
+        x = F.Fxp(v, like=t) if ent == 'ctor_like' else F.Fxp(v, template=t)
+        return dict(status=_st(x), template=_st(t), fmt=C.fmt_of(x))
     x.callbacks.append(rec)
     if ent == 'call':
         x(v)
@@ -228,6 +234,12 @@ def post(cfg, inp, ob):
     fl = [SP.flags(v, s, n, f, r, o) for v in vals]
     ovf, unf, inx = SP.OR(*[x[0] for x in fl]), SP.OR(*[x[1] for x in fl]), SP.OR(*[x[2] for x in fl])
     pre = cfg['pre']
+    if cfg.get('entry') in ('ctor_like', 'ctor_template'):
+        st, tp = ob['status'], ob['template']
+        return [('format_of_template', ob['fmt'] == [s, n, f]),
+                ('template_flags_unchanged', (tp['overflow'], tp['underflow'], tp['inaccuracy']) == (bool(pre & 1), bool(pre & 2), bool(pre & 4))),
+                ('new_object_overflow_flag_iff', SP.IFF(st['overflow'], ovf)), ('new_object_underflow_flag_iff', SP.IFF(st['underflow'], unf)),
+                ('new_object_inaccuracy_flag_iff', SP.IFF(st['inaccuracy'], inx))]
     st, calls = ob['status'], ob['calls']
     out = [('overflow_flag_iff', SP.IFF(st['overflow'], SP.OR(bool(pre & 1), ovf))),
            ('underflow_flag_iff', SP.IFF(st['underflow'], SP.OR(bool(pre & 2), unf))),
